@@ -519,3 +519,9 @@ control("C18", "GetFractionalPart cuts the digits without looking for the expone
 control("C18", "GetMaxNumerator assumes the fractional part never prints with an exponent",
         [(FV, '            if ixe == -1:\n                f2 = str_value\n            else:\n                f2 = str_value[0:ixe]\n', "            f2 = str_value\n"),
          (FV, '            ixe = str_value.lower().find("e")\n', "")], "C18.R8")
+control("C12", "numpy arrays are validated by values.min()/values.max() instead of the NaN-skipping scan",
+        [(AR, "                        iterator: Iterator[Any] = iter(values)\n", "                        if is_numpy and values.ndim == 1:\n                            CheckValue(float(values.min()))\n                            CheckValue(float(values.max()))\n                            return\n\n                        iterator: Iterator[Any] = iter(values)\n")], "C12.R3")
+control("C07", "__reduce__ takes a shortcut for simple quantities that leaves the caption out",
+        [(Q, "        lst: List[Any] = list(\n            (category, unit_and_exp)", "        if not self._is_derived:\n            return ObtainQuantity, (self._unit, self._category)\n\n        lst: List[Any] = list(\n            (category, unit_and_exp)")], "C07.R8")
+control("C13", "__reduce__ takes a shortcut for simple quantities that leaves the caption out",
+        [(Q, "        lst: List[Any] = list(\n            (category, unit_and_exp)", "        if not self._is_derived:\n            return ObtainQuantity, (self._unit, self._category)\n\n        lst: List[Any] = list(\n            (category, unit_and_exp)")], "C13.R6")
